@@ -7,8 +7,13 @@ Case lines
   2 period                 plain node (evaluates every `period` us from start; 0 = never)
   3                        open a nested node (its child graph's nodes follow)
   4                        close it
-  5 phase k len path...    fault: the k-th invocation (0-based) of the hook of node `path` throws
-                           phase 0 start, 1 evaluate, 2 stop; the fault's id is its rank among the 5-lines
+  5 phase k len path... [flavour]   fault: the k-th invocation (0-based) of the hook of node `path` throws
+                           phase 0 start, 1 evaluate, 2 stop; the fault's id is its rank among the 5-lines;
+                           flavour 0 std::runtime_error (default), 1 a plain struct, 2 an int (not std::exception)
+  11 k0 k1 ..              key source node: emits k_i in its i-th evaluation (one per microsecond)
+  8 src                    open a switch_ node keyed by node `src` of the same graph; 9 opens its next branch
+                           (branch b has key b; its nodes are addressed <switch path> ++ [100*(b+1)+index]); 4 closes it.
+                           Cases with a switch_ are judged by the oracle only (no Coq model of switch_).
   6 k len path...          node `path` calls request_stop in its k-th evaluation
 Observation lines
   kind t len path...       observer notification  1 BSG 2 ASG 3 SGF (start graph before/after/failed)
@@ -40,11 +45,20 @@ NODE_KINDS = {BSN, ASN, SNF, BEN, AEN, BPN, APN, PNF}
 
 # ---------------------------------------------------------------- trees
 # a tree is a list of nodes; a node is ("p", period) or ("n", [children])
+# also ("k", [keys]) a key source and ("s", src, [branch trees]) a switch_ node
 def tree_lines(tree):
     out = []
     for n in tree:
         if n[0] == "p":
             out.append([2, n[1]])
+        elif n[0] == "k":
+            out.append([11] + list(n[1]))
+        elif n[0] == "s":
+            out.append([8, n[1]])
+            for b in n[2]:
+                out.append([9])
+                out += tree_lines(b)
+            out.append([4])
         else:
             out.append([3])
             out += tree_lines(n[1])
@@ -52,23 +66,38 @@ def tree_lines(tree):
     return out
 
 
-def plain_paths(tree, prefix=()):
+def plain_paths(tree, prefix=(), offset=0):
+    """(static path, period) of every node with user hooks"""
     out = []
     for i, n in enumerate(tree):
+        q = prefix + (offset + i,)
         if n[0] == "p":
-            out.append((prefix + (i,), n[1]))
+            out.append((q, n[1]))
+        elif n[0] == "k":
+            out.append((q, 1))
+        elif n[0] == "s":
+            for b, br in enumerate(n[2]):
+                out += plain_paths(br, q, 100 * (b + 1))
         else:
-            out += plain_paths(n[1], prefix + (i,))
+            out += plain_paths(n[1], q)
     return out
 
 
-def all_paths(tree, prefix=()):
+def all_paths(tree, prefix=(), offset=0):
     out = []
     for i, n in enumerate(tree):
-        out.append(prefix + (i,))
+        q = prefix + (offset + i,)
+        out.append(q)
         if n[0] == "n":
-            out += all_paths(n[1], prefix + (i,))
+            out += all_paths(n[1], q)
+        elif n[0] == "s":
+            for b, br in enumerate(n[2]):
+                out += all_paths(br, q, 100 * (b + 1))
     return out
+
+
+def has_switch(case):
+    return any(l and l[0] == 8 for l in case)
 
 
 def gen_tree(rng, depth, max_nodes):
@@ -84,14 +113,37 @@ def gen_tree(rng, depth, max_nodes):
 
 def make_case(tree, start, end, cleanup, faults, stops):
     case = [[1, start, end, cleanup]] + tree_lines(tree)
-    for (ph, k, p) in faults:
-        case.append([5, ph, k, len(p)] + list(p))
+    for f in faults:
+        ph, k, p = f[0], f[1], f[2]
+        case.append([5, ph, k, len(p)] + list(p) + ([f[3]] if len(f) > 3 and f[3] else []))
     for (k, p) in stops:
         case.append([6, k, len(p)] + list(p))
     return case
 
 
+def gen_switch(rng, tier):
+    """a switch_ node in the root graph (sometimes inside a nested node): key changes, faults in the
+    outgoing / incoming branch.  Judged by the oracle only."""
+    nb = rng.randint(2, 3)
+    branches = [[("p", rng.choice([0, 1, 1, 2])) for _ in range(rng.randint(1, 3))] for _ in range(nb)]
+    keys = [rng.randrange(nb) for _ in range(rng.randint(1, 4))]
+    if len(keys) > 1 and rng.random() < 0.7:
+        keys[1] = (keys[0] + 1) % nb                                # make sure the key changes
+    inner = [("k", keys), ("s", 0, branches)] + [("p", 1)] * rng.randint(0, 1)
+    tree = inner if rng.random() < 0.75 else [("p", 1), ("n", inner)]
+    start = rng.randint(1, 2)
+    end = start + rng.randint(2, 6)
+    pp = [p for p, _ in plain_paths(tree)]
+    faults = []
+    for _ in range(rng.choice([0, 1, 1, 1, 2, 2, 3])):
+        ph = rng.choice([0, 1, 2, 2, 2])
+        faults.append((ph, rng.choice([0, 0, 0, 1]), rng.choice(pp), rng.choice([0, 0, 0, 1, 2])))
+    return make_case(tree, start, end, rng.choice([0, 1, 1]), faults, [])
+
+
 def gen(rng, tier, prop):
+    if rng.random() < 0.12:
+        return gen_switch(rng, tier)
     r = rng.random()
     depth = rng.choice([0, 0, 1, 1, 2, 3])
     tree = gen_tree(rng, depth, 4 if tier == "quick" else 5)
@@ -134,6 +186,8 @@ def gen(rng, tier, prop):
                 faults.append((ph, 0 if ph != 1 else rng.choice([0, 1, 2]), pick()))
         if rng.random() < 0.3:
             stops.append((rng.choice([0, 0, 1, 2]), pick()))
+        # exception flavour: most faults throw std::runtime_error, some throw objects that are not std::exception
+        faults = [f + (rng.choice([0, 0, 0, 1, 2]),) for f in faults]
     return make_case(tree, start, end, cleanup, faults, stops)
 
 
@@ -189,6 +243,24 @@ def enumerate_cases(prop):
                     out.append(make_case(tree, start, end, cleanup, [(0, 0, p), (2, 0, q)], []))
                     if p < q:
                         out.append(make_case(tree, start, end, cleanup, [(2, 0, p), (2, 0, q)], []))
+            # every single fault point again with an exception that is not a std::exception
+            for p in pp:
+                for ph in (0, 1, 2):
+                    out.append(make_case(tree, start, end, cleanup, [(ph, 0, p, 1)], []))
+                for q in pp:
+                    out.append(make_case(tree, start, end, cleanup, [(1, 0, p, 2), (2, 0, q, 1)], []))
+    # switch_: two/three branches, every key change pattern of length <= 3, every single fault point
+    for branches in ([[_p()], [_p()]], [[_p(), _p()], [_p(), _p()]], [[_p()], [_p(), _p()], [_p()]]):
+        nb = len(branches)
+        for keys in itertools.chain(itertools.product(range(nb), repeat=2), itertools.product(range(nb), repeat=3)):
+            tree = [("k", list(keys)), ("s", 0, branches)]
+            pp = [p for p, _ in plain_paths(tree)]
+            for cleanup in (0, 1):
+                out.append(make_case(tree, start, end + 1, cleanup, [], []))
+                for p in pp:
+                    for ph in (0, 1, 2):
+                        for k in (0, 1):
+                            out.append(make_case(tree, start, end + 1, cleanup, [(ph, k, p)], []))
     return out
 
 
@@ -197,24 +269,47 @@ def parse_case(case):
     start, end, cleanup = 1, 5, 1
     root = []
     stack = [root]
-    faults, stops = [], []
+    kinds = [0]
+    faults, stops, flavours = [], [], []
     for l in case:
         if l[0] == 1 and len(l) >= 4:
             start, end, cleanup = l[1], l[2], l[3]
-        elif l[0] == 2 and len(l) >= 2:
+        elif l[0] == 2 and len(l) >= 2 and kinds[-1] != 3:
             stack[-1].append(("p", l[1]))
-        elif l[0] == 3:
+        elif l[0] == 11 and kinds[-1] != 3:
+            stack[-1].append(("k", list(l[1:])))
+        elif l[0] == 3 and kinds[-1] != 3:
             ch = []
             stack[-1].append(("n", ch))
             stack.append(ch)
+            kinds.append(1)
+        elif l[0] == 8 and len(l) >= 2 and kinds[-1] != 3:
+            brs = []
+            stack[-1].append(("s", l[1], brs))
+            stack.append(brs)
+            kinds.append(3)
+        elif l[0] == 9:
+            if kinds[-1] == 4:
+                stack.pop()
+                kinds.pop()
+            if kinds[-1] == 3:
+                b = []
+                stack[-1].append(b)
+                stack.append(b)
+                kinds.append(4)
         elif l[0] == 4:
+            if kinds[-1] == 4:
+                stack.pop()
+                kinds.pop()
             if len(stack) > 1:
                 stack.pop()
+                kinds.pop()
         elif l[0] == 5 and len(l) >= 4:
             faults.append((l[1], l[2], tuple(l[4:4 + max(0, l[3])])))
+            flavours.append(l[4 + max(0, l[3])] if len(l) > 4 + max(0, l[3]) else 0)
         elif l[0] == 6 and len(l) >= 3:
             stops.append((l[1], tuple(l[3:3 + max(0, l[2])])))
-    return dict(start=start, end=end, cleanup=cleanup, tree=root, faults=faults, stops=stops)
+    return dict(start=start, end=end, cleanup=cleanup, tree=root, faults=faults, stops=stops, flavours=flavours)
 
 
 def parse_out(out):
@@ -248,9 +343,14 @@ def owner(e):
 # ---------------------------------------------------------------- the property, on the implementation's own output
 def oracle(prop, case, out):
     if not isinstance(out, list):
+        if isinstance(out, dict) and (out.get("crash") == 97 or "hgv-terminate" in str(out.get("stderr", ""))):
+            return [("terminate_on_foreign_exception",
+                     "std::terminate inside run(): an exception escaped a noexcept clean-up region; nothing after it is stopped")]
         return [("crash", str(out)[:300])]
     if any(l and l[0] == 48 for l in out):
         return [("build_error", "the driver could not build the graph")]
+    if has_switch(case):
+        return oracle_switch(case, out)
     c = parse_case(case)
     ev_run, result, flags, ev_rel, counters = parse_out(out)
     fails = []
@@ -322,7 +422,7 @@ def oracle(prop, case, out):
 
     # every node whose start completed is stopped exactly once, in time
     # an evaluate fault escaped (decided from the hook log, not from the error text)
-    eval_in_flight = bool(fired) and hook_phase[fired[0][1][0]] == 1
+    eval_in_flight = bool(fired) and first_fired_in_cycle(log, fired[0][1])
     must_be_done_at_return = bool(c["cleanup"]) or not eval_in_flight
     nodes = {e[2] for e in log if e[0] in NODE_KINDS}
     nrun = len(ev_run)
@@ -381,7 +481,7 @@ def oracle(prop, case, out):
     if c["end"] > c["start"]:
         if fired:
             fid, fe = fired[0]
-            want = [40, fe[2][0], hook_phase[fe[0]], fid]
+            want = [40, fe[2][0], 1 if first_fired_in_cycle(log, fe) else hook_phase[fe[0]], fid]
             if result != want:
                 fails.append(("wrong_error", "first fault %d fired in %s of node %s; run reported %s, expected %s"
                               % (fid, ["start", "evaluate", "stop"][hook_phase[fe[0]]], list(fe[2]), result, want)))
@@ -409,14 +509,102 @@ def oracle(prop, case, out):
     return fails
 
 
+def first_fired_in_cycle(log, fe):
+    """did the hook event fe run inside a root evaluation cycle (between the root's BGE and AGE)?"""
+    inside = False
+    for e in log:
+        if e is fe:
+            return inside
+        if e[0] == BGE and e[2] == ():
+            inside = True
+        elif e[0] == AGE and e[2] == ():
+            inside = False
+    return False
+
+
+def oracle_switch(case, out):
+    """Cases with a switch_ node: no Coq model; the property on the user hooks alone (each node below a
+    switch_ has its own static address): a completed start is followed by exactly one stop, evaluations
+    lie in between, everything is stopped by the return of run (or the release when clean-up is off and an
+    error escaped an evaluation), the first fault that fired is what run reports."""
+    c = parse_case(case)
+    ev_run, result, flags, ev_rel, counters = parse_out(out)
+    if result is None:
+        return [("trace_shape", "no result line")]
+    fails = []
+    log = ev_run + ev_rel
+    nrun = len(ev_run)
+    hook_phase = {HS: 0, HE: 1, HP: 2}
+    fault_set = {(ph, k, p): i for i, (ph, k, p) in reversed(list(enumerate(c["faults"])))}
+    fired = [(fault_set[(hook_phase[e[0]], e[3], e[2])], e) for e in log
+             if e[0] in hook_phase and (hook_phase[e[0]], e[3], e[2]) in fault_set]
+    eval_in_flight = bool(fired) and first_fired_in_cycle(log, fired[0][1])
+    must_be_done_at_return = bool(c["cleanup"]) or not eval_in_flight
+    state = {}
+    for idx, e in enumerate(log):
+        if e[0] not in hook_phase:
+            continue
+        p = e[2]
+        st = state.get(p, 0)
+        if e[0] == HS:
+            if st:
+                fails.append(("started_twice", "node %s started while started" % (list(p),)))
+            if (0, e[3], p) not in fault_set:
+                state[p] = 1
+        elif e[0] == HE:
+            if not st:
+                fails.append(("eval_outside_lifetime", "user evaluate of %s ran outside start..stop" % (list(p),)))
+        else:
+            if not st:
+                fails.append(("stopped_twice", "user stop hook of %s ran while not started" % (list(p),)))
+            state[p] = 0
+            if idx >= nrun and must_be_done_at_return:
+                fails.append(("late_stop", "node %s stopped only at the release of the executor" % (list(p),)))
+        if idx == nrun - 1 or (nrun == 0 and idx == 0):
+            pass
+    def rollback_cut_short(p):
+        # known finding 1 inside this graph: a later sibling's start failed and, in the rollback, the stop
+        # of a sibling between them failed too
+        sib = lambda q: len(q) == len(p) and q[:-1] == p[:-1] and q[-1] // 100 == p[-1] // 100
+        for i, (_, fs) in enumerate(fired):
+            if fs[0] == HS and sib(fs[2]) and fs[2][-1] > p[-1]:
+                if any(fp[0] == HP and sib(fp[2]) and p[-1] < fp[2][-1] < fs[2][-1] for _, fp in fired[i + 1:]):
+                    return True
+        return False
+
+    for p, st in sorted(state.items()):
+        if st:
+            fails.append(("leak_rollback_abort" if rollback_cut_short(p) else "not_stopped",
+                          "node %s: start completed but it was never stopped" % (list(p),)))
+    if must_be_done_at_return:
+        for (k, v, p) in flags:
+            if v:
+                fails.append(("left_started", "%s %s still started at the return of run" % ("node" if k == 31 else "graph", list(p))))
+    for (p, cs, ce, cp) in counters:
+        n = [sum(1 for e in log if e[0] == h and e[2] == p) for h in (HS, HE, HP)]
+        if [cs, ce, cp] != n:
+            fails.append(("counter_mismatch", "node %s counters %s but hook lines %s" % (list(p), (cs, ce, cp), n)))
+    if c["end"] > c["start"]:
+        if fired:
+            fid, fe = fired[0]
+            want = [40, fe[2][0], 1 if first_fired_in_cycle(log, fe) else hook_phase[fe[0]], fid]
+            if result != want:
+                fails.append(("wrong_error", "first fault %d fired in node %s; run reported %s, expected %s" % (fid, list(fe[2]), result, want)))
+        elif result[0] == 40:
+            fails.append(("wrong_error", "run threw %s but no fault fired" % (result,)))
+    return fails
+
+
 PROP_KINDS = {
     "C14": {"start_order", "stop_order", "rollback_wrong", "leak_rollback_abort", "stop_blocked", "stopped_twice", "started_twice",
             "not_stopped", "late_stop", "counter_mismatch", "left_started", "eval_outside_lifetime", "wrong_error",
-            "unbalanced", "trace_shape", "build_error"},
+            "unbalanced", "trace_shape", "build_error", "terminate_on_foreign_exception"},
 }
 
 
 def agree(case, io, mo):
+    if has_switch(case):
+        return isinstance(io, list)      # no model of switch_: the oracle alone judges these cases
     if not isinstance(io, list) or not isinstance(mo, list) or not mo:
         return False
     v = mo[-1]
@@ -445,7 +633,8 @@ def stats(case, out):
     c = parse_case(case)
     st = {"nodes": len(all_paths(c["tree"])), "plain": len(plain_paths(c["tree"])),
           "nested": len(all_paths(c["tree"])) - len(plain_paths(c["tree"])),
-          "faults_planned": len(c["faults"]), "cleanup_off": int(not c["cleanup"]), "stop_requests": len(c["stops"])}
+          "faults_planned": len(c["faults"]), "cleanup_off": int(not c["cleanup"]), "stop_requests": len(c["stops"]),
+          "switch_cases": int(has_switch(case)), "foreign_exception_faults": sum(1 for f in c["flavours"] if f)}
     if not isinstance(out, list):
         st["crash"] = 1
         return st
